@@ -393,6 +393,9 @@ func runJSON(r *Result, cs Case, rng *rand.Rand, dir string) {
 	if len(f.Rows) > 64 {
 		r.count("inproc/json/multi_batch_files", 1)
 	}
+	if len(f.Rows) >= 2 && cells > 0 && ds.Hard() <= 50 {
+		r.Nontrivial = append(r.Nontrivial, "json|"+hashBytes(f.Content)+"|"+fmt.Sprint(ex.usedIdx))
+	}
 	if !ds.Empty() {
 		order := ""
 		// is it an ordering problem? the produced row at the first bad index equals another model row nearby
@@ -414,9 +417,6 @@ func runJSON(r *Result, cs Case, rng *rand.Rand, dir string) {
 		}
 		reportDiffs(r, "inproc", "json", ds, f.Content, order, replay)
 		return
-	}
-	if len(f.Rows) >= 2 && cells > 0 {
-		r.Nontrivial = append(r.Nontrivial, "json|"+hashBytes(f.Content)+"|"+fmt.Sprint(ex.usedIdx))
 	}
 	r.Sample = map[string]interface{}{"id": cs.ID, "kind": "json", "rows": len(f.Rows), "schema": trunc(schemaString(ex.used), 300), "first_row": trunc(firstLine(f.Content), 300), "cells_compared": cells}
 }
@@ -573,12 +573,12 @@ func runCSV(r *Result, cs Case, rng *rand.Rand, dir string) {
 		r.viol(cs.Kind+":generator-unrepresentable", fmt.Sprintf("%d cells are not representable in the inferred schema %s", unrep, schemaString(ex.schema.Fields)), replay)
 		return
 	}
+	if len(f.Rows) >= 2 && cells > 0 && ds.Hard() <= 50 {
+		r.Nontrivial = append(r.Nontrivial, cs.Kind+"|"+hashBytes(f.Content)+"|"+fmt.Sprint(ex.usedIdx))
+	}
 	if !ds.Empty() {
 		reportDiffs(r, "inproc", cs.Kind, ds, f.Content, "", replay)
 		return
-	}
-	if len(f.Rows) >= 2 && cells > 0 {
-		r.Nontrivial = append(r.Nontrivial, cs.Kind+"|"+hashBytes(f.Content)+"|"+fmt.Sprint(ex.usedIdx))
 	}
 	r.Sample = map[string]interface{}{"id": cs.ID, "kind": cs.Kind, "rows": len(f.Rows), "header": header, "schema": trunc(schemaString(ex.used), 300), "head": trunc(string(f.Content), 200), "cells_compared": cells}
 }
@@ -740,6 +740,19 @@ func judgeLines(r *Result, leg, id string, f *linesFile, used []physical.SchemaF
 	if firstDiff < 0 {
 		what = fmt.Sprintf("file has %d lines, the source returned %d", len(f.Rows), len(recs))
 	}
+	if textIdx >= 0 {
+		var pl, el []int
+		for i := 0; i < len(recs) && i < 40; i++ {
+			if len(recs[i]) == len(used) {
+				pl = append(pl, len(recs[i][textIdx].Str))
+			}
+		}
+		for i := 0; i < len(f.Rows) && i < 40; i++ {
+			el = append(el, len(f.Rows[i]))
+		}
+		replay["produced_text_lengths"] = fmt.Sprint(pl)
+		replay["expected_text_lengths"] = fmt.Sprint(el)
+	}
 	key := "lines:value"
 	if firstDiff < 0 {
 		key = "lines:row-count"
@@ -759,6 +772,12 @@ func judgeLines(r *Result, leg, id string, f *linesFile, used []physical.SchemaF
 		// tokens one gets when, after each separator match, scanning resumes ONE byte after the
 		// start of that separator (the split function advances by i+1 instead of i+len(separator))
 		pos, ok := 0, true
+		longBug := f.LongAt >= 0 // a line that overflows the 64 KiB token once it carries the separator's tail
+		for _, row := range f.Rows {
+			if len(row)+2*len(f.Sep)-1 > scannerMax {
+				longBug = true
+			}
+		}
 		for i := range recs {
 			if len(recs[i]) != len(used) {
 				ok = false
@@ -775,7 +794,7 @@ func judgeLines(r *Result, leg, id string, f *linesFile, used []physical.SchemaF
 				pos += len(tok) + 1
 			case len(rest) == 0 && i == len(recs)-1:
 				pos += len(tok)
-			case f.LongAt >= 0 && i == len(recs)-1:
+			case longBug && i == len(recs)-1:
 			default:
 				ok = false
 			}
@@ -785,7 +804,7 @@ func judgeLines(r *Result, leg, id string, f *linesFile, used []physical.SchemaF
 		}
 		if ok && pos == len(f.Content) {
 			key = "lines-sep-advance-1"
-		} else if ok && f.LongAt >= 0 && len(recs) < len(f.Rows)+2 {
+		} else if ok && longBug {
 			// both anticipated defects at once: the mis-split sequence stops silently at the over-long line
 			key = "lines-sep-advance-1"
 			r.viol("lines-long-line-truncated", what+" (and the table ends silently before the over-long line)", replay)
